@@ -1,4 +1,5 @@
 //! hx_c27: repetition/definition levels (C27).
+mod e2e;
 mod explore;
 mod stack;
 mod unit;
@@ -9,6 +10,7 @@ fn main() {
         "c27" => unit::run(&args),
         "explore" => explore::run(&args),
         "e2e" => explore::e2e(),
+        "e2e2" => explore::e2e2(),
         _ => {
             eprintln!("unknown subcommand {sub}");
             2
